@@ -46,8 +46,14 @@ Definition malformed_ok (c : caseR) : bool :=
 Definition cls_of (c : caseR) : N :=
   match r_impl c with IOk _ => 0 | IErr _ _ _ => 1 | IPanic => 2 | IHang => 3 end%N.
 
+(* the decidable premise of C03_rcb_total / C04_rcb_split_balanced: inside the
+   contract the root box (f64 min/max, then `as f32`) has finite canonical
+   bounds that enclose the binary32 coordinates *)
+Definition premise_ok (c : caseR) : bool :=
+  if in_contract c && negb (Nat.eqb (r_plen c) 0) then box_ok32 (r_D c) (pts_of c) (r_ws c) else true.
+
 Definition eval03 (c : caseR) : verdict :=
-  let corr := res_matches (model_of c) (r_impl c) in
+  let corr := res_matches (model_of c) (r_impl c) && premise_ok c in
   let prop :=
     if in_contract c then
       match r_impl c with
